@@ -518,11 +518,17 @@ class Gen:
                         sp.tensor_name = names[self.t.pick(len(names))]
                         sp.device.extend(list(range(self.t.pick(c.num_devices + 1))))
                 for node in list(mp.graph.node) + nested:
-                    if node.device_configurations and self.t.flag("undeclared_second_configuration", 4):
+                    if node.device_configurations and self.t.flag("second_configuration", 2):
                         dc = node.device_configurations.add()
-                        dc.configuration_id = "cfg_not_declared"
-                        if self.t.flag():
-                            dc.pipeline_stage = 1
+                        used_ids = {d.configuration_id for d in node.device_configurations}
+                        free = [c for c in cfgs if c.name not in used_ids]
+                        if free and self.t.flag():
+                            dc.configuration_id = free[0].name  # placement only: a stage, no sharding specs
+                            dc.pipeline_stage = self.t.pick(3)
+                        else:
+                            dc.configuration_id = "cfg_not_declared"
+                            if self.t.flag():
+                                dc.pipeline_stage = 1
         return mp
 
 
